@@ -277,6 +277,14 @@ def check_sequence(ctx, rec, fact, seq, case, sigp, means_ref=None, nunit=None, 
         return
     keys = [k for k, _ in log0]
     shp = log0[0][1]
+    # one independent standard-normal entry per column of the stored factor: dense (n d,), isotropic (n, d), block-diagonal
+    # (d, n); fewer entries mean that several coordinates share a draw (repository fix 186ceff for the isotropic model;
+    # seeded change C13-s11 for the block-diagonal one)
+    p0 = int(ch["slices"][0]["L0"].shape[1])
+    want_shp = {"dense": (p0,), "iso": (p0, nsl), "bd": (nsl, p0)}[fact]
+    if tuple(shp) != want_shp or any(tuple(sh) != want_shp for _, sh in log0):
+        ctx.violation(f"{sigp}:draws:shape", f"sample_flat draws standard normals of shape {tuple(shp)}; one independent draw per factor column needs {want_shp}", case)
+        return
     if len(set(keys)) != N:
         ctx.violation(f"{sigp}:keys:reused", f"the {N} nodes of one sample consumed only {len(set(keys))} distinct keys", case)
     want_paths = ctx.drv.call_raw("smp_keys", N - 1, 0)
